@@ -72,7 +72,7 @@ def showKind : Kind → String
 def showErr : Err → String
   | .sentinel l => showLeaf l
   | .typed k c => showKind k ++ ">" ++ showErr c
-  | .module n c => s!"mod({n})>" ++ showErr c
+  | .module n c => s!"mod({if n = "" then "\"\"" else n})>" ++ showErr c
 
 def showRes : Option Err → String
   | none => "ok"
